@@ -157,7 +157,7 @@ def main(argv=None):
             if v.key in seen:
                 continue
             seen.add(v.key)
-            path = common.write_replay(prop, v.key, dict(property=prop, kind="bounded-contract-failure", function=v.function,
+            path = common.write_replay(prop, v.key, dict(property=prop, kind="bounded-contract-failure", key=v.key, function=v.function,
                                        clause=v.clause, input=v.input, expected=v.expected, observed=v.observed,
                                        replay=v.replay, rerun=f"cd /verif && ./check {prop} --replay <this file>"))
             lines.append(f"VIOLATION property={prop} replay={path}")
